@@ -378,8 +378,20 @@ def check(fx, rep, tier):
             msg = 'reads is_streaming / is_oneway and emits set_more(true) / set_oneway(true)'
         elif label == 'chain-start':
             # oneway -> nothing; streaming -> set_more(true) under is_streaming
-            guard = any(x.get('k') == 'if' and 'is_streaming' in (x.get('cond') or '') and 'set_more (true)' in ' '.join(m.get('tokens') or '' for m in A.macros(x.get('then')))
-                        for x in A.nodes(n['body']))
+            guard = False
+            for x, path in A.nodes_with_path(n['body']):
+                if x.get('k') != 'macro' or 'set_more (true)' not in (x.get('tokens') or ''):
+                    continue
+                for c in path:
+                    # `if attrs.is_streaming { quote!(..) }`, `attrs.is_streaming.then(|| quote!(..))`, `match attrs.is_streaming { true => quote!(..), .. }`
+                    if c.get('k') == 'if' and 'is_streaming' in (c.get('cond') or '') and '!' not in (c.get('cond') or '') and x in list(A.nodes(c.get('then'))):
+                        guard = True
+                    if c.get('k') == 'mcall' and c.get('method') in ('then', 'then_some') and 'is_streaming' in A.text(c.get('recv')) and '!' not in A.text(c.get('recv')):
+                        guard = True
+                    if c.get('k') == 'match' and 'is_streaming' in (c.get('scrut') or ''):
+                        for a_ in c.get('arms') or []:
+                            if (a_.get('pat') or '').strip() == 'true' and x in list(A.nodes(a_.get('body'))):
+                                guard = True
             skip = any(x.get('k') == 'if' and 'is_oneway' in (x.get('cond') or '') and any(y.get('k') == 'return' for y in A.nodes(x.get('then'))) for x in A.nodes(n['body']))
             ok = guard and skip
             msg = 'emits set_more(true) under is_streaming and nothing for oneway methods'
@@ -409,6 +421,14 @@ def check(fx, rep, tier):
             if len(hs) == 1:
                 # the three generators share one helper that builds the path: its bindings are theirs
                 hn = hs[0][1]
+                # the helper's parameters stand for the caller's arguments
+                for q_, a_ in zip(hn.get('params') or [], callee.get('args') or []):
+                    pn_ = re.sub(r'^(mut\s+)?', '', q_.split(':')[0].strip())
+                    a0_ = a_
+                    while isinstance(a0_, dict) and a0_.get('k') in ('ref', 'paren') and isinstance(a0_.get('expr'), dict):
+                        a0_ = a0_['expr']
+                    if pn_ not in lets and not (isinstance(a0_, dict) and a0_.get('k') == 'path' and (a0_.get('text') or '').strip() == pn_):
+                        lets[pn_] = a_
                 for y in A.nodes(hn['body']):
                     if y.get('k') == 'let' and isinstance(y.get('init'), dict):
                         lets.setdefault((y.get('pat') or '').replace('mut ', '').strip(), y.get('init'))
@@ -421,21 +441,80 @@ def check(fx, rep, tier):
         mvars = re.findall(r'\{(\w+)\}', fm_)
         name_var = mvars[-1] if len(mvars) == 2 else 'actual_method_name'
 
-        def words(node):
-            return set(re.findall(r'[A-Za-z_]\w*', A.text(node) if node is not None else ''))
-        amn_n = lets.get(name_var)
-        amn = A.text(amn_n)
-        conv_n = next((lets[w] for w in sorted(words(amn_n)) if w in lets and 'snake_case_to_pascal_case' in A.text(lets[w])), lets.get('converted_name'))
-        conv = A.text(conv_n)
-        mns_n = next((lets[w] for w in sorted(words(conv_n)) if w in lets and 'to_string' in A.text(lets[w])), lets.get('method_name_str'))
-        mns = A.text(mns_n)
-        norm_ = lambda t_: re.sub(r'\b(%s)\b' % '|'.join(sorted(set(lets) | {'x'}, key=len, reverse=True)), '_', re.sub(r'\s', '', t_))
-        chains[label] = (norm_(amn), norm_(conv), 'unraw' in mns and 'to_string' in mns)
+        # the interpolated name as a canonical expression: bindings resolved, borrowing / cloning / string conversions transparent, every spelling of
+        # "the rename if there is one, else .." (unwrap_or, unwrap_or_else, map_or, match Some/None, if let Some) as one `choice` node
+        TRANSPARENT = ('clone', 'to_string', 'to_owned', 'as_str', 'as_deref', 'as_ref', 'into', 'cloned', 'borrow', 'deref', 'as_deref_mut')
+
+        def canon(nd, depth=0, bound=None):
+            bound = bound or {}
+            if nd is None or depth > 24:
+                return '?'
+            if isinstance(nd, str):
+                return nd
+            k = nd.get('k')
+            if k == 'path':
+                t_ = (nd.get('text') or '').strip()
+                if t_ in bound:
+                    return bound[t_]
+                if t_ in lets and lets[t_] is not nd:
+                    return canon(lets[t_], depth + 1, bound)
+                return t_
+            if k in ('ref', 'paren', 'deref', 'group', 'unary') and isinstance(nd.get('expr'), dict):
+                return canon(nd['expr'], depth + 1, bound)
+            if k == 'field':
+                return A.text(nd).replace(' ', '')
+            if k == 'closure':
+                return canon(nd.get('body'), depth + 1, bound)
+            if k == 'mcall':
+                m_ = nd.get('method')
+                if m_ in TRANSPARENT:
+                    return canon(nd.get('recv'), depth + 1, bound)
+                if m_ in ('unwrap_or', 'unwrap_or_else') and nd.get('args'):
+                    return ('choice', canon(nd.get('recv'), depth + 1, bound), canon(nd['args'][0], depth + 1, bound))
+                if m_ in ('map_or', 'map_or_else') and len(nd.get('args') or []) == 2:
+                    return ('choice', canon(nd.get('recv'), depth + 1, bound), canon(nd['args'][0], depth + 1, bound))
+                return (m_, canon(nd.get('recv'), depth + 1, bound)) + tuple(canon(a_, depth + 1, bound) for a_ in nd.get('args') or [])
+            if k == 'call':
+                fn_ = nd.get('func') if isinstance(nd.get('func'), str) else A.text(nd.get('func') or {})
+                return (fn_.replace(' ', '').split('::')[-1],) + tuple(canon(a_, depth + 1, bound) for a_ in nd.get('args') or [])
+            if k == 'match' and len(nd.get('arms') or []) == 2:
+                some = [a_ for a_ in nd['arms'] if re.match(r'Some\s*\(', a_.get('pat') or '')]
+                none = [a_ for a_ in nd['arms'] if (a_.get('pat') or '').strip() in ('None', '_')]
+                if len(some) == 1 and len(none) == 1:
+                    v_ = re.sub(r'^(ref\s+|mut\s+)*', '', re.match(r'Some\s*\(\s*(.*?)\s*\)$', some[0]['pat'].strip()).group(1))
+                    sc = canon(nd.get('scrut_node') or nd.get('scrut'), depth + 1, bound)
+                    if canon(some[0].get('body'), depth + 1, dict(bound, **{v_: '<payload>'})) == '<payload>':
+                        return ('choice', sc, canon(none[0].get('body'), depth + 1, bound))
+            if k == 'if':
+                m_ = re.match(r'let\s+Some\s*\(\s*(?:ref\s+)?(\w+)\s*\)\s*=\s*(.*)$', (nd.get('cond') or '').strip())
+                if m_ and nd.get('else') is not None:
+                    sc_n = (nd.get('cond_node') or {}).get('expr') if isinstance(nd.get('cond_node'), dict) else None
+                    sc = canon(sc_n, depth + 1, bound) if sc_n else re.sub(r'[&\s]', '', m_.group(2))
+                    th = nd.get('then')
+                    th = th[-1] if isinstance(th, list) and th else th
+                    el = nd.get('else')
+                    el = el[-1] if isinstance(el, list) and el else el
+                    th = (th.get('expr') or th) if isinstance(th, dict) and th.get('k') == 'expr' else th
+                    el = (el.get('expr') or el) if isinstance(el, dict) and el.get('k') == 'expr' else el
+                    if canon(th, depth + 1, dict(bound, **{m_.group(1): '<payload>'})) == '<payload>':
+                        return ('choice', sc, canon(el, depth + 1, bound))
+            if k == 'block' and nd.get('body'):
+                last = nd['body'][-1]
+                return canon(last.get('expr') or last if isinstance(last, dict) else last, depth + 1, bound)
+            return re.sub(r'\s', '', A.text(nd))
+        cn = canon(lets.get(name_var))
+
+        def flat(x):
+            return x if isinstance(x, str) else '(' + ' '.join(flat(y) for y in x) + ')'
+        is_choice = isinstance(cn, tuple) and cn[0] == 'choice'
+        opt_src = flat(cn[1]) if is_choice else flat(cn)
+        dflt = flat(cn[2]) if is_choice else ''
+        chains[label] = (opt_src if is_choice else 'not a rename-or-default choice: ' + opt_src, dflt, 'unraw' in dflt)
         fmts[label] = re.sub(r'\{%s\}' % re.escape(name_var), '{<name>}', fm_) if len(mvars) == 2 else fm_
     vals = set(fmts.values())
     rep.check(len(vals) == 1 and None not in vals and '{interface_name}.{<name>}' in vals, 'R12.3', 'method-path|format', P,
               'all three generators build the method path as %s' % sorted(vals), 'the generators format the qualified method name differently: %s' % fmts)
-    same_chain = len({(a, b) for a, b, c in chains.values()}) == 1 and all('rename' in a and 'unwrap_or' in a and 'snake_case_to_pascal_case' in b for a, b, c in chains.values())
+    same_chain = len({(a, b) for a, b, c in chains.values()}) == 1 and all(a.endswith('.rename') and b.startswith('(snake_case_to_pascal_case ') for a, b, c in chains.values())
     rep.check(same_chain, 'R12.3', 'method-path|name-source', P, 'name = method_attrs.rename or PascalCase(identifier) in all three generators',
               'the generators derive the wire method name differently: %s' % chains)
     rep.check(all(c for a, b, c in chains.values()), 'R12.7', 'method-ident|unraw', P, 'the method identifier is unraw\'d before it becomes a wire name in all three generators',
